@@ -319,6 +319,8 @@ def run(ck):
     ck.apalache("AP_Sq2625", 2, "u32 square / pow2k contract (square_inner term table: accumulators and carries < 2^64, 2x and 19x fit u32, value, output b < 0.007) for all limbs with b < 1.75")
     ck.apalache("AP_Sq2625_twice", 2, "u32 square2: the doubled coefficients still fit 64 bits for all limbs with b < 1.75")
     ck.apalache("AP_Sq2625_neg", 2, "kept counterexample: square2 on limbs with b < 2.5", expect_violation=True)
+    ck.apalache("AP_MulIfma", 2, "AVX-512 IFMA mul / square (IfmaField.tla's structure, half-products abstracted): no 64-bit wrap and value = x*y mod p for ALL legal multiplicands (limbs < 2^52)")
+    ck.apalache("AP_MulIfma_neg", 2, "kept counterexample: the part of a folded word above 2^52 forgotten", expect_violation=True)
     ck.apalache("AP_Mul2625_neg", 2, "kept counterexample: x with b < 3.5 overflows a 64-bit accumulator", expect_violation=True)
     ck.apalache("AP_Mul51", 2, "u64 mul contract (value, accumulators < 2^128, carries < 2^64, post-bounds) for all limbs < 2^54", cinit="CInit54")
     ck.apalache("AP_Mul51", 2, "kept counterexample: the contract fails for limbs < 2^55", cinit="CInit55", expect_violation=True)
